@@ -16,7 +16,7 @@ the optional rate series and the TradingEnvXY configuration:
     seed           integer selecting the values (counter-based splitmix64 stream, no RNG state)
     y_p0           first price of each asset; y_vol the bound of one multiplicative move
     x_scale, x_offset, x_jump   per feature column: scale, offset, and [row, factor] regime change
-    y_nan, x_nan   lists of [row, column] cells set to NaN
+    y_nan, x_nan   lists of [row, column] cells set to NaN; x_late = [[column, first valid row]] (leading NaNs)
     window, stride, transformer (None|'z-score'|'yeo-johnson'), transformer_end (None|integer offset),
     clip, spread, start, end (None|integer offset), bound_fmt ('str'|'ts'),
     folds          None or {'training-set': [d0, d1], 'test-set': [d2, d3]} (offsets), fold = the one reset into,
@@ -146,6 +146,8 @@ def tables_from_case(case):
         x[:, j] = col + case["x_offset"][j]
     for r, c in case["x_nan"]:
         x[r, c] = np.nan
+    for c, r0 in case.get("x_late", []):
+        x[:r0, c] = np.nan
     X = pd.DataFrame(x, index=index_of(case, case["x_days"]), columns=X_COLS[:nx])
     rate = None
     if case["rate_days"] is not None:
@@ -431,6 +433,10 @@ def cases(draw, tier="quick"):
         "x_offset": [draw(st.sampled_from([0.0, 0.0, 0.5, -2.0, 50.0])) for _ in range(nx)],
         "x_jump": [[draw(st.integers(8, max(8, m - 1))), draw(st.sampled_from([1.0, 1.0, 25.0, 0.04]))] for _ in range(nx)],
         "y_nan": y_nan, "x_nan": x_nan,
+        # a feature column that only starts late (leading NaNs up to a row possibly far into the episode); only without a
+        # transformer to fit (an all-NaN fit sample is outside what the power transform accepts)
+        "x_late": ([[draw(st.integers(0, nx - 1)), draw(st.integers(2, max(2, m - 2)))]]
+                   if (transformer is None and nx >= 2 and draw(st.sampled_from([True, False]))) else []),
         "window": window, "stride": stride, "transformer": transformer, "transformer_end": transformer_end,
         "clip": clip, "spread": spread, "start": start, "end": end,
         "bound_fmt": draw(st.sampled_from(["str", "ts"])),
